@@ -74,9 +74,13 @@ def explore_eer(ctx, chk, sc, ec, easy):
     fcalls = []
 
     def stubroot(ev, fi, bound):
-        fx = ev.call(bound["f"], [X], {})
+        # the root finder's parameters by POSITION (function, lower end, upper end, first-or-last flag): private names are not part of the contract
+        names = [a.arg for a in fi.node.args.posonlyargs + fi.node.args.args if a.arg not in ("self", "cls")]
+        fn_, lo_, hi_ = (bound.get(n) for n in names[:3])
+        flag_ = bound.get("find_first", bound.get(names[3]) if len(names) > 3 else None)
+        fx = ev.call(fn_, [X], {})
         fcalls.append(fx)
-        return App("ROOT", (bound["xa"], bound["xe"], bound["find_first"]))
+        return App("ROOT", (lo_, hi_, flag_))
 
     ev = ctx.ev
     ev.stubs[SCORES + ".threshold_at_fpr"] = stub_setter("TFPR")
